@@ -13,10 +13,13 @@ package fastcgi
 //@ extern bufio.NewWriterSize
 //@   ensures result != nil
 //@ func (*FCGIClient).writeRecord
+//@   modifies header.Version, header.Type, header.ID, header.ContentLength, header.PaddingLength
+//@   requires c != nil
 //@   requires [len_fits] len(content) <= 65535
 
 //@ func (*streamWriter).Write
-//@   requires w != nil
+//@   modifies header.Version, header.Type, header.ID, header.ContentLength, header.PaddingLength
+//@   requires w != nil && w.c != nil
 //@   ensures [all_or_error] result1 == nil ==> result0 == len(old(p))
 //@   // an empty record ends a FastCGI stream: only Close writes one, never Write (also when len(p) is a multiple of the record size)
 //@   at call (*FCGIClient).writeRecord before [every_record_of_a_write_carries_bytes] 1 <= len(arg2) && len(arg2) <= 65500 && arg1 == w.recType
@@ -24,11 +27,15 @@ package fastcgi
 //@   loop 1 decreases len(p)
 
 //@ func (*streamWriter).Close
-//@   requires w != nil
+//@   modifies header.Version, header.Type, header.ID, header.ContentLength, header.PaddingLength
+//@   requires w != nil && w.c != nil
 
 //@ func (*FCGIClient).writeBeginRequest
+//@   modifies header.Version, header.Type, header.ID, header.ContentLength, header.PaddingLength
+//@   requires c != nil
 //@ func (*FCGIClient).writeEndRequest
-//@   modifies E:uint8
+//@   requires c != nil
+//@   modifies E:uint8, header.Version, header.Type, header.ID, header.ContentLength, header.PaddingLength
 
 //@ func (*record).read
 //@   modifies record.rbuf
@@ -78,6 +85,7 @@ package fastcgi
 //@ ghost closed int
 //@ ghost stdinW int
 //@ func (*FCGIClient).writeBeginRequest
+//@   requires c != nil
 //@   modifies ghost:began, E:uint8
 //@   ensures began == old(began) + 1
 //@ func (*FCGIClient).writePairs
@@ -161,6 +169,7 @@ package fastcgi
 //@ define usable(resp *http.Response, err error) bool = (err == nil || err == io.EOF) ==> (resp != nil && 100 <= resp.StatusCode && resp.StatusCode <= 999)
 //@ // writes to a connection do not fail with the read-side sentinel io.EOF (assumed: net.Conn.Write never returns it)
 //@ func (*FCGIClient).Do
+//@   modifies E:uint8
 //@   requires c != nil
 //@   ensures result1 != io.EOF
 //@ // errors made by the library or by errors.New are not the sentinel io.EOF
@@ -176,29 +185,29 @@ package fastcgi
 //@   pure
 //@ func (*FCGIClient).Request
 //@   requires c != nil
-//@   modifies Response.Header, Response.StatusCode, Response.Status, Response.TransferEncoding, Response.ContentLength, Response.Body
+//@   modifies Response.Header, Response.StatusCode, Response.Status, Response.TransferEncoding, Response.ContentLength, Response.Body, E:uint8
 //@   ensures [usable_response] usable(resp, err)
 //@ func (*FCGIClient).Get
 //@   requires c != nil && p != nil
 //@   // C13: the request body reaches the responder byte for byte, whatever its length and whether or not the length
 //@   // was announced: the reader handed to Request is the caller's body itself (no wrapper that could cut it short)
 //@   at call (*FCGIClient).Request assert [body_passed_on_untouched] arg2 == body
-//@   modifies Response.Header, Response.StatusCode, Response.Status, Response.TransferEncoding, Response.ContentLength, Response.Body, MV:map[string]string, MD:map[string]string
+//@   modifies Response.Header, Response.StatusCode, Response.Status, Response.TransferEncoding, Response.ContentLength, Response.Body, MV:map[string]string, MD:map[string]string, E:uint8
 //@   ensures [usable_response] usable(resp, err)
 //@ func (*FCGIClient).Head
 //@   requires c != nil && p != nil
-//@   modifies Response.Header, Response.StatusCode, Response.Status, Response.TransferEncoding, Response.ContentLength, Response.Body, MV:map[string]string, MD:map[string]string
+//@   modifies Response.Header, Response.StatusCode, Response.Status, Response.TransferEncoding, Response.ContentLength, Response.Body, MV:map[string]string, MD:map[string]string, E:uint8
 //@   ensures [usable_response] usable(resp, err)
 //@ func (*FCGIClient).Options
 //@   requires c != nil && p != nil
-//@   modifies Response.Header, Response.StatusCode, Response.Status, Response.TransferEncoding, Response.ContentLength, Response.Body, MV:map[string]string, MD:map[string]string
+//@   modifies Response.Header, Response.StatusCode, Response.Status, Response.TransferEncoding, Response.ContentLength, Response.Body, MV:map[string]string, MD:map[string]string, E:uint8
 //@   ensures [usable_response] usable(resp, err)
 //@ func (*FCGIClient).Post
 //@   requires c != nil && p != nil
 //@   // C13: the request body reaches the responder byte for byte, whatever its length and whether or not the length
 //@   // was announced: the reader handed to Request is the caller's body itself (no wrapper that could cut it short)
 //@   at call (*FCGIClient).Request assert [body_passed_on_untouched] arg2 == body
-//@   modifies Response.Header, Response.StatusCode, Response.Status, Response.TransferEncoding, Response.ContentLength, Response.Body, MV:map[string]string, MD:map[string]string
+//@   modifies Response.Header, Response.StatusCode, Response.Status, Response.TransferEncoding, Response.ContentLength, Response.Body, MV:map[string]string, MD:map[string]string, E:uint8
 //@   ensures [usable_response] usable(resp, err)
 //@ func writeHeader
 //@   requires w != nil && r != nil && 100 <= r.StatusCode && r.StatusCode <= 999
@@ -296,13 +305,13 @@ package fastcgi
 //@ ghost registered int
 //@ func fastcgiParse
 //@   requires c != nil
-//@   modifies ghost:parsedNow
+//@   modifies ghost:parsedNow, Dispenser.cursor, Dispenser.nesting, Rule.Ext, Rule.IndexFiles, Rule.SplitPath
 //@   ensures parsedNow == old(parsedNow) + 1
 //@ extern (*github.com/tmpim/casket/caskethttp/httpserver.SiteConfig).AddMiddleware
 //@   modifies ghost:registered
 //@   ensures registered == old(registered) + 1
 //@ func setup
 //@   requires c != nil && parsedNow == 0 && registered == 0
-//@   modifies ghost:parsedNow, ghost:registered
+//@   modifies ghost:parsedNow, ghost:registered, Dispenser.cursor, Dispenser.nesting, Rule.Ext, Rule.IndexFiles, Rule.SplitPath
 //@   at call (*github.com/tmpim/casket/caskethttp/httpserver.SiteConfig).AddMiddleware before [registered_after_this_runs_own_parse] parsedNow == 1
 //@   ensures [one_handler_on_success_none_on_error] parsedNow == 1 && (result == nil ==> registered == 1) && (result != nil ==> registered == 0)
